@@ -59,7 +59,7 @@ def jobs(tier):
     for cls in ["TrainLoss", "ValLoss"]:
         out.append(("gvc.props.c19", "ob_init", {"cls": cls}))
         for rep in REPS:
-            for verbose in [0, 1]:
+            for verbose in [0, 1, 2]:
                 out.append(("gvc.props.c19", "ob_step", {"cls": cls, "rep": rep, "verbose": verbose}))
     out.append(("gvc.props.c19", "ob_init", {"cls": "EpochStop"}))
     for verbose in [0, 1, 2]:
